@@ -84,6 +84,7 @@ void ILLsymboltab_init (
 	h->hashtable = (int *) NULL;
 	h->nametable = (ILLsymbolent *) NULL;
 	h->namelist = (char *) NULL;
+	h->index_ok = 0;
 }
 
 void ILLsymboltab_free (
@@ -369,7 +370,7 @@ int ILLsymboltab_register (
 		{
 			ILL_IFTRACE ("register: OLD %s entry#=%d hash=%d\n",
 									 s, h->the_index, h->the_hash);
-			return 0;
+			goto CLEANUP;
 		}
 
 		rval = add_string (h, s, &symbol);
